@@ -18,13 +18,14 @@ MEMBERSHIPS = {"none": (), "f1": ("f1",), "f2": ("f2",), "both": ("f1", "f2")}
 class MemWorld(World):
     name = "W-mem"
 
-    def __init__(self, v0="f1", v1="f1", s0="none", b0="none", bs="none", r0="f1", pairs=False):
+    def __init__(self, v0="f1", v1="f1", s0="none", b0="none", bs="none", r0="f1", pairs=False, declared=("f1", "f2")):
         super().__init__()
         self.pairs = pairs
-        self.name = f"W-mem[v0={v0},v1={v1},s0={s0},b0={b0},bs={bs},r0={r0}]"
+        declared = tuple(declared)
+        self.name = f"W-mem[v0={v0},v1={v1},s0={s0},b0={b0},bs={bs},r0={r0}" + ("" if declared == ("f1", "f2") else f",declared={'+'.join(declared)}") + "]"
         S = sites()
         cfg = make_config(step=60, cancel=240, idle_timeout=120, dispatcher={"matching_range_km_threshold": 0.0, "charging_range_km_threshold": 5.0, "charging_range_km_soft_threshold": 6.0, "max_search_radius_km": 5.0})
-        self.env = make_env(cfg, fleets=("f1", "f2"))
+        self.env = make_env(cfg, fleets=declared)  # the fleets the scenario declares (fleets file)
         env = self.env
         rn = HaversineRoadNetwork(sim_h3_resolution=15)
         self.rn = rn
